@@ -27,7 +27,7 @@ func init() {
 	sim.RegisterKind("rtx-after-completion", "C12")
 	sim.RegisterKind("tr-wrong-response", "C12")
 	sim.RegisterKind("tr-return-instant", "C12")
-	sim.RegisterKind("tr-hang", "C12")
+	sim.RegisterKind("tr-hang", "C12", "C18")
 	sim.RegisterKind("tr-completed-twice", "C12")
 	sim.RegisterKind("tr-left-in-table", "C12")
 	sim.RegisterKind("tr-unexpected-result", "C12")
@@ -642,7 +642,7 @@ func (x *c12) caseRtxWriteRace() {
 // write, which then fails or succeeds: the transaction ends once, with an error, and nothing blows up.
 func (x *c12) caseCloseDuringRtxWrite() {
 	_, fail := schedule(x.rto)
-	k := 1 + x.rng.Intn(maxRtx-1)
+	k := x.rng.Intn(maxRtx) // 0: the request's first write, made by the caller of PerformTransaction itself
 	failWrite := x.rng.Intn(2) == 0
 	msg, tid := x.request()
 	x.srv.SetHandler(nil)
